@@ -400,6 +400,9 @@ package core
 //@ func NewManagedThread
 //@   modifies nothing
 //@   ensures r0 != nil && fresh(r0)
+// panic-freedom: a managed thread always has its condition variable and that has its lock
+//@ typeinv ManagedThread s
+//@   inv s.operatorCondition != nil && ref(s.operatorCondition.L) != 0
 
 // ---------------------------------------------------------------------------------------------
 // C13: extension automata. Tables written from the property: register, then next ... ; init error only between
@@ -578,6 +581,7 @@ package core
 //@ func (*ExternalAgent).GetState
 //@   modifies nothing
 //@   ensures [current] r0 == s.currentState
+//@   ensures [one-of-nine] r0 == s.StartedState || r0 == s.RegisteredState || r0 == s.ReadyState || r0 == s.RunningState || r0 == s.InitErrorState || r0 == s.ExitErrorState || r0 == s.ShutdownFailedState || r0 == s.ExitedState || r0 == s.LaunchErrorState
 //@ func (*ExternalAgent).IsSubscribed
 //@   modifies nothing
 //@   ensures [membership] r0 <==> has(s.events, e)
@@ -705,6 +709,7 @@ package core
 //@ func (*InternalAgent).GetState
 //@   modifies nothing
 //@   ensures [current] r0 == s.currentState
+//@   ensures [one-of-six] r0 == s.StartedState || r0 == s.RegisteredState || r0 == s.ReadyState || r0 == s.RunningState || r0 == s.InitErrorState || r0 == s.ExitErrorState
 //@ func (*InternalAgent).IsSubscribed
 //@   modifies nothing
 //@   ensures [membership] r0 <==> has(s.events, e)
@@ -803,6 +808,117 @@ package core
 //@   modifies nothing
 //@   ensures [empty] r0.byName != nil && r0.byID != nil && fresh(r0.byName) && fresh(r0.byID) && r0.byName != r0.byID && (forall k string :: !has(r0.byName, k) && !has(r0.byID, k)) && len(r0.byName) == 0
 
+// the agent maps never hold a nil agent: Insert is the only writer and is given a non-nil agent
+//@ typeinv ExternalAgentsMap m
+//@   inv forall k string :: (has(m.byName, k) ==> m.byName[k] != nil) && (has(m.byID, k) ==> m.byID[k] != nil)
+//@ typeinv InternalAgentsMap m
+//@   inv forall k string :: (has(m.byName, k) ==> m.byName[k] != nil) && (has(m.byID, k) ==> m.byID[k] != nil)
+
+// ---------------------------------------------------------------------------------------------
+// C15: what the platform reports about an extension (AgentsInfo) is its true state: name, the name of its current
+// state, its error type and its subscriptions.
+// ---------------------------------------------------------------------------------------------
+
+//@ func (*ExternalAgentStartedState).Name
+//@   modifies nothing
+//@   partial s
+//@   ensures r0 == "Started"
+//@ func (*ExternalAgentRegisteredState).Name
+//@   modifies nothing
+//@   partial s
+//@   ensures r0 == "Registered"
+//@ func (*ExternalAgentReadyState).Name
+//@   modifies nothing
+//@   partial s
+//@   ensures r0 == "Ready"
+//@ func (*ExternalAgentRunningState).Name
+//@   modifies nothing
+//@   partial s
+//@   ensures r0 == "Running"
+//@ func (*ExternalAgentInitErrorState).Name
+//@   modifies nothing
+//@   partial s
+//@   ensures r0 == "InitError"
+//@ func (*ExternalAgentExitErrorState).Name
+//@   modifies nothing
+//@   partial s
+//@   ensures r0 == "ExitError"
+//@ func (*ExternalAgentShutdownFailedState).Name
+//@   modifies nothing
+//@   partial s
+//@   ensures r0 == "ShutdownFailed"
+//@ func (*ExternalAgentExitedState).Name
+//@   modifies nothing
+//@   partial s
+//@   ensures r0 == "Exited"
+//@ func (*ExternalAgentLaunchErrorState).Name
+//@   modifies nothing
+//@   partial s
+//@   ensures r0 == "LaunchError"
+//@ func (*InternalAgentStartedState).Name
+//@   modifies nothing
+//@   partial s
+//@   ensures r0 == "Started"
+//@ func (*InternalAgentRegisteredState).Name
+//@   modifies nothing
+//@   partial s
+//@   ensures r0 == "Registered"
+//@ func (*InternalAgentReadyState).Name
+//@   modifies nothing
+//@   partial s
+//@   ensures r0 == "Ready"
+//@ func (*InternalAgentRunningState).Name
+//@   modifies nothing
+//@   partial s
+//@   ensures r0 == "Running"
+//@ func (*InternalAgentInitErrorState).Name
+//@   modifies nothing
+//@   partial s
+//@   ensures r0 == "InitError"
+//@ func (*InternalAgentExitErrorState).Name
+//@   modifies nothing
+//@   partial s
+//@   ensures r0 == "ExitError"
+//@ spec extStateName(a *ExternalAgent) string = ite(a.currentState == a.StartedState, "Started", ite(a.currentState == a.RegisteredState, "Registered", ite(a.currentState == a.ReadyState, "Ready", ite(a.currentState == a.RunningState, "Running", ite(a.currentState == a.InitErrorState, "InitError", ite(a.currentState == a.ExitErrorState, "ExitError", ite(a.currentState == a.ShutdownFailedState, "ShutdownFailed", ite(a.currentState == a.ExitedState, "Exited", ite(a.currentState == a.LaunchErrorState, "LaunchError", "")))))))))
+//@ spec intStateName(a *InternalAgent) string = ite(a.currentState == a.StartedState, "Started", ite(a.currentState == a.RegisteredState, "Registered", ite(a.currentState == a.ReadyState, "Ready", ite(a.currentState == a.RunningState, "Running", ite(a.currentState == a.InitErrorState, "InitError", ite(a.currentState == a.ExitErrorState, "ExitError", ""))))))
+//@ spec extInfoOf(info AgentInfo, a *ExternalAgent) bool = info.Name == a.Name && info.State == extStateName(a) && info.ErrorType == a.errorType && len(info.Subscriptions) == len(a.events)
+//@ func (*ExternalAgent).SubscribedEvents
+//@   modifies nothing
+//@   ensures [one-per-subscription] len(r0) == len(s.events)
+//@   ensures [only-subscribed] forall j int :: 0 <= j && j < len(r0) ==> has(s.events, as(r0[j], Event))
+//@   loop range s.events: invariant held(s) && len(events) == card(visited) && (forall j int :: 0 <= j && j < len(events) ==> has(s.events, as(events[j], Event))) && unchanged(s.currentState, s.errorType)
+//@ spec intInfoOf(info AgentInfo, a *InternalAgent) bool = info.Name == a.Name && info.State == intStateName(a) && info.ErrorType == a.errorType && len(info.Subscriptions) == len(a.events)
+//@ func (*InternalAgent).SubscribedEvents
+//@   modifies nothing
+//@   ensures [one-per-subscription] len(r0) == len(s.events)
+//@   ensures [only-subscribed] forall j int :: 0 <= j && j < len(r0) ==> has(s.events, as(r0[j], Event))
+//@   loop range s.events: invariant held(s) && len(events) == card(visited) && (forall j int :: 0 <= j && j < len(events) ==> has(s.events, as(events[j], Event))) && unchanged(s.currentState, s.errorType)
+//@ event ExtListed = ret go.amzn.com/lambda/core.(*registrationServiceImpl).GetExternalAgents
+//@ event IntListed = ret go.amzn.com/lambda/core.(*registrationServiceImpl).GetInternalAgents
+//@ func (*registrationServiceImpl).AgentsInfo
+//@   modifies nothing
+// (the entries of internal extensions are proved true position by position in the second loop; the solvers do not
+// carry that through the index shift into an existential postcondition in reasonable time, so it is not exported)
+//@   ensures [one-entry-per-extension] len(r0) == len(s.externalAgents.byName) + len(s.internalAgents.byName)
+//@   ensures [external-entries-are-true] forall i int :: 0 <= i && i < len(s.externalAgents.byName) ==> (exists k string :: has(s.externalAgents.byName, k) && extInfoOf(r0[i], s.externalAgents.byName[k]))
+//@   ensures [every-external-reported] forall k string :: has(s.externalAgents.byName, k) ==> (exists i int :: 0 <= i && i < len(s.externalAgents.byName) && extInfoOf(r0[i], s.externalAgents.byName[k]))
+//@   loop range s.GetExternalAgents(): invariant [bookkeeping] held(s) && delta(ExtListed) == 1 && delta(IntListed) == 0 && len(agentsInfo) == rangeindex + 1 && 0 <= rangeindex + 1 && rangeindex + 1 <= len(lastret(ExtListed))
+//@   loop range s.GetExternalAgents(): invariant [entries] forall j int :: 0 <= j && j <= rangeindex ==> extInfoOf(agentsInfo[j], lastret(ExtListed)[j])
+//@   loop range s.GetInternalAgents(): invariant [bookkeeping] held(s) && delta(ExtListed) == 1 && delta(IntListed) == 1 && len(agentsInfo) == len(lastret(ExtListed)) + rangeindex + 1 && 0 <= rangeindex + 1 && rangeindex + 1 <= len(lastret(IntListed))
+//@   loop range s.GetInternalAgents(): invariant [external-entries] forall j int :: 0 <= j && j < len(lastret(ExtListed)) ==> extInfoOf(agentsInfo[j], lastret(ExtListed)[j])
+//@   loop range s.GetInternalAgents(): invariant [entries] forall j int :: len(lastret(ExtListed)) <= j && j < len(agentsInfo) ==> intInfoOf(agentsInfo[j], lastret(IntListed)[j - len(lastret(ExtListed))])
+//@   loop range s.GetInternalAgents(): invariant [entries-by-position-in-the-list] forall j int :: 0 <= j && j <= rangeindex ==> intInfoOf(agentsInfo[len(lastret(ExtListed)) + j], lastret(IntListed)[j])
+
+// panic-freedom of the callbacks of the registration service
+//@ func (*registrationServiceImpl).CancelFlows$1
+//@   requires s != nil && regWired(s)
+//@ func (*registrationServiceImpl).GetInternalStateDescriptor$1
+//@   requires s != nil
+//@ func (*registrationServiceImpl).getInternalStateDescription$1
+//@   requires agent != nil
+//@ func (*registrationServiceImpl).getInternalStateDescription$2
+//@   requires agent != nil
+
 // Iteration through a callback: Visit calls cb exactly once per stored agent (proved on Visit's own loop); callers
 // reason with an invariant over the set of visited keys, as for a range loop.
 //@ func (*ExternalAgentsMap).Visit
@@ -893,6 +1009,7 @@ package core
 //@   loop visit m: invariant forall i int :: 0 <= i && i < len(agents) ==> visited[keyAt[i]] && m.byName[keyAt[i]] == agents[i]
 //@   loop visit m: invariant forall k string :: visited[k] ==> 0 <= posOf[k] && posOf[k] < len(agents) && agents[posOf[k]] == m.byName[k]
 //@ func (*registrationServiceImpl).GetSubscribedExternalAgents$1
+//@   requires a != nil
 //@   modifies agents
 //@   ensures [appended-when-subscribed] has(a.events, eventType) ==> len(agents) == old(len(agents)) + 1 && agents[old(len(agents))] == a && (forall i int :: 0 <= i && i < old(len(agents)) ==> agents[i] == old(agents[i]))
 //@   ensures [skipped-otherwise] !has(a.events, eventType) ==> agents == old(agents)
@@ -909,6 +1026,7 @@ package core
 //@   loop visit s.externalAgents: invariant forall i int :: 0 <= i && i < len(agents) ==> visited[keyAt[i]] && s.externalAgents.byName[keyAt[i]] == agents[i] && has(agents[i].events, eventType)
 //@   loop visit s.externalAgents: invariant forall k string :: visited[k] && has(s.externalAgents.byName[k].events, eventType) ==> 0 <= posOf[k] && posOf[k] < len(agents) && agents[posOf[k]] == s.externalAgents.byName[k]
 //@ func (*registrationServiceImpl).GetSubscribedInternalAgents$1
+//@   requires a != nil
 //@   modifies agents
 //@   ensures [appended-when-subscribed] has(a.events, eventType) ==> len(agents) == old(len(agents)) + 1 && agents[old(len(agents))] == a && (forall i int :: 0 <= i && i < old(len(agents)) ==> agents[i] == old(agents[i]))
 //@   ensures [skipped-otherwise] !has(a.events, eventType) ==> agents == old(agents)
